@@ -31,7 +31,9 @@ pub uninterp spec fn str_of(s: Seq<char>) -> String;
 pub broadcast axiom fn axiom_str_canon(v: String)
     ensures #[trigger] str_of(v@) == v;
 pub broadcast axiom fn axiom_str_of_view(s: Seq<char>)
-    ensures s.len() <= usize::MAX ==> (#[trigger] str_of(s))@ == s;
+    // (a String holds at most isize::MAX bytes, hence at most that many characters; audit P2: the bound usize::MAX was
+    // too generous)
+    ensures s.len() <= 0x7fff_ffff_ffff_ffff ==> (#[trigger] str_of(s))@ == s;
 pub proof fn lemma_str_eq(a: String, b: String)
     requires a@ == b@
     ensures a == b
@@ -41,6 +43,7 @@ pub proof fn lemma_str_eq(a: String, b: String)
 }
 
 // a vector of a non-zero-sized element type holds at most isize::MAX elements (Rust allocation limit)   TRUSTED
+// (used for Vec<Event> / Vec<u8> only; not true of zero-sized element types)
 pub axiom fn axiom_vec_len<T>(v: Vec<T>)
     ensures v@.len() <= 0x7fff_ffff_ffff_ffff;
 
@@ -49,7 +52,9 @@ pub uninterp spec fn vec_of<T>(s: Seq<T>) -> Vec<T>;
 pub broadcast axiom fn axiom_vec_canon<T>(v: Vec<T>)
     ensures #[trigger] vec_of(v@) == v;
 pub broadcast axiom fn axiom_vec_of_view<T>(s: Seq<T>)
-    ensures s.len() <= usize::MAX ==> (#[trigger] vec_of(s))@ == s;
+    // (audit P2: with the bound usize::MAX this axiom contradicted axiom_vec_len -- `false` was derivable from a
+    // sequence of 2^63 elements; a Vec holds at most isize::MAX elements)
+    ensures s.len() <= 0x7fff_ffff_ffff_ffff ==> (#[trigger] vec_of(s))@ == s;
 
 pub proof fn lemma_vec_eq<T>(a: Vec<T>, b: Vec<T>)
     requires a@ == b@
